@@ -443,6 +443,15 @@ fn yaml_dq(out: &mut String, s: &str) {
 	out.push('"');
 }
 
+/// Simple words of even length are written as plain (unquoted) scalars, so that flow
+/// collections are not always valid JSON as well.
+fn yaml_plain_ok(s: &str) -> bool {
+	s.len() >= 2
+		&& s.len() % 2 == 0
+		&& s.bytes().all(|b| b.is_ascii_lowercase())
+		&& !matches!(s, "true" | "false" | "null" | "yes" | "no" | "on" | "off")
+}
+
 pub fn to_yaml_flow(v: &V) -> String {
 	let mut out = String::new();
 	yaml_flow_into(&mut out, v);
@@ -456,6 +465,7 @@ fn yaml_flow_into(out: &mut String, v: &V) {
 		V::I(i) => out.push_str(&i.to_string()),
 		V::U(u) => out.push_str(&u.to_string()),
 		V::F(f) => out.push_str(&fmt_f64(*f)),
+		V::S(s) if yaml_plain_ok(s) => out.push_str(s),
 		V::S(s) => yaml_dq(out, s),
 		V::B(b) => yaml_flow_into(out, &V::A(b.iter().map(|x| V::I(i64::from(*x))).collect())),
 		V::A(a) => {
@@ -571,7 +581,7 @@ pub fn build_stream(docs: &[Vec<u8>], f: Fmt, r: &mut Rng, vary: bool) -> Stream
 				}
 				let st = s.bytes.len();
 				// The marker of the first document is optional for collection documents.
-				let bare_first = i == 0 && vary && r.chance(1, 3) && d.first().is_some_and(|c| matches!(c, b'[' | b'{' | b'-' | b'a'..=b'z' | b'"'));
+				let bare_first = i == 0 && vary && r.chance(1, 2) && d.first().is_some_and(|c| matches!(c, b'[' | b'{' | b'-' | b'a'..=b'z' | b'"'));
 				if !bare_first {
 					s.bytes.extend_from_slice(b"---\n");
 				}
@@ -944,4 +954,46 @@ impl serde::Serialize for V {
 			}
 		}
 	}
+}
+
+
+// ---------------------------------------------------------------- buffer-boundary texts
+
+/// A JSON, YAML or TOML document larger than an internal buffer (8 KiB BufReader /
+/// BufWriter, 16 KiB libyaml raw buffer) in which a 2-, 3- or 4-byte UTF-8 character
+/// starts 0..=4 bytes before a multiple of 8192. Returns the bytes.
+pub fn boundary_text(r: &mut Rng, f: Fmt) -> Vec<u8> {
+	let boundary = 8192 * r.range(1, 3);
+	let back = r.range(0, 4);
+	let ch = *r.pick(&["\u{e9}", "\u{7ff}", "\u{65e5}", "\u{ffee}", "\u{1F600}", "\u{10FFFF}", "\u{10000}"]);
+	let head: &str = match f {
+		Fmt::Json => "{\"t\": {\"k\": \"a: b\"}, \"v\": \"",
+		Fmt::Toml => *r.pick(&["[t]\nk = \"a: b\"\nv = \"", "v = \"", "[t]\n# c: d\nv = \""]),
+		_ => *r.pick(&["t:\n  k: 'a = b'\nv: \"", "---\nv: \"", "- \""]),
+	};
+	let tail: &str = match f {
+		Fmt::Json => "\"}\n",
+		Fmt::Toml => "\"\nw = 1\n",
+		_ => "\"\n",
+	};
+	let start = boundary - back; // offset at which the character starts
+	let mut s = String::with_capacity(boundary + 64);
+	s.push_str(head);
+	while s.len() < start {
+		s.push('x');
+	}
+	s.push_str(ch);
+	let extra = r.range(0, 40);
+	for _ in 0..extra {
+		s.push('y');
+	}
+	if r.chance(1, 3) {
+		// a second one at the next boundary
+		while s.len() < start + 8192 {
+			s.push('z');
+		}
+		s.push_str(ch);
+	}
+	s.push_str(tail);
+	s.into_bytes()
 }
